@@ -7,7 +7,7 @@ from check import HARNESS, KANI_TD, ENV, TARGET, Lock
 os.makedirs(TARGET, exist_ok=True)
 with Lock(os.path.join(TARGET, "kani.lock")):
     p = subprocess.run(["cargo", "kani", "-Z", "stubbing", "--only-codegen", "--exact", "--harness",
-                        "c13_serial::c13_varint_u64", "--target-dir", KANI_TD], cwd=HARNESS, env=ENV,
+                        "c13_serial::c13_varint_u64", "--features", "p_c13", "--target-dir", KANI_TD], cwd=HARNESS, env=ENV,
                        stdout=subprocess.PIPE, stderr=subprocess.STDOUT, text=True)
 print("\n".join(p.stdout.splitlines()[-5:]))
 sys.exit(p.returncode)
